@@ -120,7 +120,7 @@ Definition gq_trace_ok (n : nat) (T : @tens GQ) : bool :=
 Definition gq_herm_ok (n : nat) (T : @tens GQ) : bool := tens_all n (fun a b c d => gq_eqb (cj GQ (T a b c d)) (T b a d c)).
 
 (* kinds of exact cases (Gaussian integers): (kind, n, Nb, Km, Lm, Ld, extra matrix, extra tensor, result) *)
-Inductive ckind := KLoopit | KConvert | KTdConvert | KLindblad | KSecular | KTransform | KRfAdd | KApplyOps.
+Inductive ckind := KLoopit | KConvert | KTdConvert | KLindblad | KSecular | KTransform | KRfAdd | KApplyOps | KSecularIn.
 
 Definition gz_ops (l : list (list (list (Z * Z)))) : nat -> @mat GZ := @ops_of GZ l.
 Definition gz_tens (l : list (list (list (list (Z * Z))))) : @tens GZ := @tens_of GZ l.
@@ -148,6 +148,9 @@ Definition model01 (c : case01) : @tens GZ :=
   | KSecular => secularize (gz_tens (c_T c))
   | KTransform => ttrans n (mT (gz_mat (c_M c))) (gz_mat (c_M c)) (gz_tens (c_T c))
   | KRfAdd => rf_add n (gz_mat (c_M c)) (gz_tens (c_T c))
+  (* secularize() called as the first access inside a freshly entered basis context with diagonaliser S: the tensor is
+     presented in that basis first *)
+  | KSecularIn => secularize (ttrans n (mT (gz_mat (c_M c))) (gz_mat (c_M c)) (gz_tens (c_T c)))
   | KApplyOps => fun _ _ _ _ => r0 GZ
   end.
 
@@ -161,7 +164,7 @@ Definition agrees01 (c : case01) : bool :=
 
 (* rational cases: update_structure / Foerster tensor / add_dephasing (division by two; complex h) and the
    end-to-end comparison of a tensor with the model fed the run's own operators *)
-Inductive qkind := QUpdate | QFoerster | QDephPinned | QDephRepaired | QRedfield | QTdRedfield | QRfAdd.
+Inductive qkind := QUpdate | QFoerster | QDephPinned | QDephRepaired | QRedfield | QTdRedfield | QRfAdd | QSecularIn.
 Record case01q := mkCase01q {
   q_kind : qkind; q_n : nat; q_nb : nat;
   q_K : list (list (list (Q * Q))); q_L : list (list (list (Q * Q)));
@@ -181,5 +184,7 @@ Definition model01q (c : case01q) : @tens GQ :=
   | QRedfield => redfield_tensor n (q_nb c) (gq_ops (q_K c)) (gq_ops (q_L c))
   | QTdRedfield => td_redfield_tensor n (q_nb c) (gq_ops (q_K c)) (gq_ops (q_L c))
   | QRfAdd => rf_add n (gq_mat (q_M c)) (gq_tens (q_T c))
+  (* secularize() as the first access inside a context whose diagonaliser is the (orthogonal) matrix q_M *)
+  | QSecularIn => secularize (ttrans n (mT (gq_mat (q_M c))) (gq_mat (q_M c)) (gq_tens (q_T c)))
   end.
 Definition agrees01q (c : case01q) : bool := gq_tens_close (q_tol c) (q_n c) (model01q c) (gq_tens (q_out c)).
